@@ -335,7 +335,7 @@ def gen_T1(n, types):
                     ([plain_rows(n - 1, 1)[0] + [[1, 'r|', 'M']]], [[0, None]] * 2),
                 ]
                 for rows, rules in bodies:
-                    yield {'fam': 'table', 'ast': t_ast(cols, bars, rows, rules, spell=spell)}
+                    yield {'fam': 'table', 'ast': t_ast(cols, bars, rows, rules, spell=spell, final=1)}
 
 
 T2_PAIRS = [('none', 'c'), ('all', '|c|'), ('all', 'c'), ('none', 'c|'), ('alt', '|c')]
@@ -373,7 +373,7 @@ def gen_T2V(n, r, maxmc):
                 rules = [[0, None] for _ in range(r + 1)]
                 rules[0][0] = 1
                 rules[r][0] = 1
-                yield {'fam': 'table', 'ast': t_ast(cols, bars_list(mask, n), rows, rules)}
+                yield {'fam': 'table', 'ast': t_ast(cols, bars_list(mask, n), rows, rules, tight=1)}
 
 
 KINDS_FULL = ['M', 'M2', 'P2', 'E', 'BF', 'G', 'MA', 'TB', 'NT', 'NA', 'LI', 'DF', 'US']
@@ -391,7 +391,7 @@ def gen_T3(n, r, kinds):
         rules = [[0, None] for _ in range(r + 1)]
         if r > 1:
             rules[1][0] = 1
-        yield {'fam': 'table', 'ast': t_ast(cols, bars, rows, rules)}
+        yield {'fam': 'table', 'ast': t_ast(cols, bars, rows, rules, tight=1)}
 
 
 def gen_T3mc(kinds):
@@ -410,7 +410,7 @@ def t4_bodies():
     M = 'M'
     out = []
     out.append(('lc', [0, 1, 0], plain_rows(2, 2), [[0, None], [1, None], [0, None]]))
-    out.append(('lc', [1, 1, 1], plain_rows(2, 2), [[1, None], [0, None], [1, None]]))
+    out.append(('rc', [1, 1, 1], plain_rows(2, 2), [[1, None], [0, None], [1, None]]))
     out.append(('l', [0, 0], plain_rows(1, 3), [[0, None], [0, None], [1, None], [0, None]]))
     out.append(('lcr', [1, 1, 1, 0], [plain_rows(3, 1)[0], [[2, 'c', M], [1, None, M]]],
                 [[1, None], [0, [3, 3]], [1, None]]))                       # design-time witness
@@ -437,6 +437,8 @@ def gen_T4():
                 continue
             for term in sorted(R.TERMINATORS):
                 for tight in (0, 1):
+                    if (env, wrap, term, tight) == ('tabular', 'bare', 'bs', 0):
+                        continue        # the default spelling is what every other family uses
                     for final in (0, 1):
                         case = {'fam': 'table', 'wrap': wrap,
                                 'ast': t_ast(cols, bars, rows, rules, env=env, term=term, tight=tight, final=final)}
